@@ -21,6 +21,12 @@
    C09_unstarted_reported when a SESS_TERM is handled in session, the queue of
                          not-yet-started transfers is emptied and each of them
                          gets SigSendFinished [id; 0; "terminating"];
+   C09_send_refused_when_terminating  on an open endpoint that is terminating,
+                         send_bundle_data raises (RuntimeError to the caller)
+                         and changes nothing else: nothing is queued, so nothing
+                         can be left unreported;
+   C09_no_queue_growth_when_terminating  once terminating, no operation makes
+                         the queue of unstarted transfers longer;
    C09_closed_is_final   once the socket is closed, no operation changes
                          anything but the clock.
 
@@ -94,10 +100,30 @@ Theorem C09_queued_never_dropped : forall (c : cfg) (ops : list op),
 Proof. exact queued_never_dropped. Qed.
 Print Assumptions C09_queued_never_dropped.
 
+Theorem C09_send_refused_when_terminating : forall (s : ep) (data : bytes),
+  closed s = false -> in_term s = true ->
+  step s (OSend data) = emit (EExc EX_RUNTIME) s.
+Proof. intros s data. exact (send_refused data s). Qed.
+Print Assumptions C09_send_refused_when_terminating.
+
+Theorem C09_no_queue_growth_when_terminating : forall (s : ep) (o : op), in_term s = true ->
+  (length (pend_start (step s o)) <= length (pend_start s))%nat.
+Proof. exact pend_start_never_grows_when_terminating. Qed.
+Print Assumptions C09_no_queue_growth_when_terminating.
+
 Theorem C09_closed_is_final : forall (s : ep) (o : op), closed s = true ->
   step s o = match o with OAdvance dt => s <| now := now s + dt |> | _ => s end.
 Proof. exact step_closed. Qed.
 Print Assumptions C09_closed_is_final.
+
+(* Non-vacuity: a reachable open, terminating state in which a send is refused. *)
+Example C09_example_refused :
+  let s := run (mkCfg false [100] 30 60 1000 500 None)
+               [OStart; ORx (encode_frame (FContact (mkContact MAGIC 4 0)));
+                ORx (encode_frame (FMsg (MSessInit 30 100 1000 [100] []))); OSend [1;2;3]; OTerm 0] in
+  closed s = false /\ in_term s = true /\ pend_start (step s (OSend [4])) = pend_start s
+  /\ tx_map (step s (OSend [4])) = tx_map s.
+Proof. vm_compute. repeat split; reflexivity. Qed.
 
 (* Non-vacuity: a reachable closed state; a reachable state in session with a
    queued transfer that handles a SESS_TERM. *)
